@@ -333,6 +333,18 @@ def install_source_summaries(it):
                  index_range_to))
     S.insert(0, (path(r"^std::io::Error::new$|^std::io::error::Error::new$|^std::io::Error::other$"), opaque("io-error", 0)))
 
+    # pure observers of an opaque source (size_hint of the characters, len of the input): an unknown number, the source untouched
+    def observer(it_, st, inst, args, call):
+        v = _res(args[0], it_, st) if args else None
+        if isinstance(v, Top) and (isinstance(v.tag, Tag) or v.tag == "input"):
+            return Top(summ.ret_ty(it_, call), "observed")
+        return NotImplemented
+
+    S.insert(0, (path(r"as std::iter::Iterator>::size_hint$|^std::iter::Iterator::size_hint$|^core::str::<impl str>::(len|is_empty)$|^core::slice::<impl \[T\]>::(len|is_empty)$"), observer))
+
+    # trimming: the result is a sub-slice of the argument (whitespace removed at the ends)
+    S.insert(0, (path(r"^core::str::<impl str>::trim(_start|_end)?$"), opaque("trimmed", 1)))
+
 
 def peel_adaptors(P, v):
     """Strip std::iter::Map layers: returns (innermost source value, [mapping function values], outermost first)."""
@@ -387,6 +399,8 @@ def describe_source(P, src, fns, kind, input_val):
     if kind == "str":
         if is_tag(src, "chars-of") and src.tag[1] == input_val:
             return "str-chars", None, {}
+        if is_tag(src, "chars-of") and is_tag(src.tag[1], "trimmed") and src.tag[1].tag[1] == input_val:
+            return "str-trimmed", "the parser reads the input with the whitespace at its ends trimmed off (str::trim*: Unicode White_Space, more than JSON's four characters), not the whole input", {}
         return "str-chars", "the parser does not read str::chars() of the whole input: %r" % (src,), {}
     # bytes
     if is_tag(src, "chars-of") and is_tag(src.tag[1], "str-of") and src.tag[1].tag[1] == input_val:
